@@ -1,6 +1,8 @@
 # PARKED (loaded by no check; needs the helpers of contracts/simulator.py): make_protocol yields a frame
-# satisfying protocol_ok.  The engine executes the function (Timedelta = seconds, DataFrame(dict).T); the loop
-# invariant over the dict of rows is not yet discharged (8 obligations undecided).
+# satisfying protocol_ok.  The engine executes the function (Timedelta = seconds, DataFrame(dict).T); 69 of 74
+# obligations discharge.  Undecided: preservation of dict_wf(data) for the extended key order - key_index is an
+# uninterpreted position function without an axiom for appended keys, so dict_wf cannot be re-established by proof
+# (everywhere else it is only assumed of input dicts).
 
 # ----------------------------------------------------------------------------- make_protocol (C14)
 # make_protocol turns (duration, parameters) steps into the frame simulate_protocol reads:
@@ -10,11 +12,12 @@
 
 
 def CumDur(steps, n):
-    return fold_prefix(lambda acc, s: acc + real(s[0]), 0.0, steps, n)
+    # read in the pre-state: the step list and its tuples are never modified
+    return old(fold_prefix(lambda acc, s: acc + real(s[0]), 0.0, steps, n))
 
 
 def durations_positive(steps):
-    return forall(lambda i: implies(0 <= i and i < len(steps), real(at(steps, i)[0]) > 0), "int")
+    return old(forall(lambda i: implies(0 <= i and i < len(steps), real(at(steps, i)[0]) > 0), "int"))
 
 
 @contract("mxlpy:make_protocol")
